@@ -1015,8 +1015,14 @@ func vScenarios() []vScenario {
 			req := types.PlacementRequirements{Attributes: types.Attributes{{Key: "region", Value: "a"}, {Key: "arch", Value: "a"}}}
 			id := dtypes.DeploymentID{Owner: t.Bech, DSeq: g.freshDSeq(t)}
 			price := g.unitPrice()
+			// which of the two groups (= which of the provider's leases in store
+			// order) carries the requirement varies
+			groups := []dtypes.GroupSpec{vGroupSpec("g1", types.PlacementRequirements{}, vUnitSpec{price, 1}), vGroupSpec("g2", req, vUnitSpec{price, 1})}
+			if g.r.Bool() {
+				groups = []dtypes.GroupSpec{vGroupSpec("g1", req, vUnitSpec{price, 1}), vGroupSpec("g2", types.PlacementRequirements{}, vUnitSpec{price, 1})}
+			}
 			o := g.h.DoNote("tpl/create-deployment-attrs", 1, t, &dtypes.MsgCreateDeployment{ID: id,
-				Groups: []dtypes.GroupSpec{vGroupSpec("g1", types.PlacementRequirements{}, vUnitSpec{price, 1}), vGroupSpec("g2", req, vUnitSpec{price, 1})},
+				Groups: groups,
 				Version: vVersion(g.r), Deposit: vCoin(g.minDep() * 2)})
 			if !o.OK {
 				return
